@@ -2,4 +2,5 @@ SPECIFICATION TSpec
 CONSTANTS
   FB = 16
   WB = 32
+  Deviations = {}
 POSTCONDITION TraceAccepted
